@@ -285,8 +285,18 @@ SKIP_MODEL = ("unmodelled", "mmio")
 
 
 def _run_bin(exe, text, timeout=3600):
-    p = subprocess.run([exe], input=text, stdout=subprocess.PIPE, stderr=subprocess.PIPE,
-                       text=True, timeout=timeout)
+    """Run one harness/model process on a batch of protocol lines.  A process that does not finish (a deadlock or an
+    endless loop in the code under test) is killed after `timeout` seconds and reported like a crash: the answers it
+    gave so far are kept, the first unanswered script is the one it hung on."""
+    timeout = min(timeout, int(os.environ.get("VERIF_HANG_TIMEOUT", "1200")))
+    try:
+        p = subprocess.run([exe], input=text, stdout=subprocess.PIPE, stderr=subprocess.PIPE,
+                           text=True, timeout=timeout)
+    except subprocess.TimeoutExpired as e:
+        out = e.stdout.decode() if isinstance(e.stdout, bytes) else (e.stdout or "")
+        if out and not out.endswith("\n"):
+            out = out[:out.rfind("\n") + 1]
+        return -9, out, "harness did not finish within %d s: HANG (deadlock or endless loop) on the first unanswered line" % timeout
     return p.returncode, p.stdout, p.stderr
 
 
